@@ -46,6 +46,9 @@ type c10Case struct {
 	// value for all requests, a transaction identifier) | alternate (every other request carries the shared value, the
 	// others none). Such a value labels a request; it does not identify an exchange.
 	Correlation string `json:"client_correlation_values,omitempty"`
+	// FreshClone: the callers share a Clone() of the dialled client that nobody has used before they start, and they
+	// start together (a worker pool handed a clone)
+	FreshClone bool `json:"callers_share_a_fresh_clone,omitempty"`
 }
 
 // echoResponse builds the response the server produces for a request: it echoes the identifier it read.
@@ -284,6 +287,15 @@ func c10Run(c c10Case) (sig string, err error) {
 	if derr != nil {
 		return "harness-dial", derr
 	}
+	if c.FreshClone {
+		orig := cl
+		defer orig.Close()
+		clone, cerr := orig.Clone()
+		if cerr != nil {
+			return "harness-dial", cerr
+		}
+		cl = clone
+	}
 	// the generator owns the window between send and recv: the hook knows which request was just sent
 	var current sync.Map // goroutine id -> identifier of the call it is executing
 	hits := map[string]int{}
@@ -367,10 +379,12 @@ func c10Run(c c10Case) (sig string, err error) {
 	defer kmipclient.SetVerifYield(nil)
 	results := make(chan callResult, 64)
 	var wg sync.WaitGroup
+	start := make(chan struct{})
 	for ci, calls := range c.Callers {
 		wg.Add(1)
 		go func(ci int, calls []callPlan) {
 			defer wg.Done()
+			<-start
 			var held []heldAnswer
 			defer func() {
 				for _, h := range held {
@@ -474,6 +488,7 @@ func c10Run(c c10Case) (sig string, err error) {
 			}
 		}(ci, calls)
 	}
+	close(start)
 	wg.Wait()
 	close(results)
 	_ = cl.Close()
@@ -567,6 +582,7 @@ func TestC10OwnResponse(t *testing.T) {
 			}
 		}
 		c.Correlation = rapid.SampledFrom([]string{"", "", "unique", "shared", "alternate"}).Draw(rt, "correlation")
+		c.FreshClone = rapid.IntRange(0, 2).Draw(rt, "fresh-clone") == 0
 		key, _ := json.Marshal(c)
 		rec.Case(nt, key, fmt.Sprintf("callers=%d", n), "correlation="+c.Correlation)
 		if nt && rec.WantSample() {
